@@ -9,9 +9,9 @@ The property's sentence, read strictly (`Spec.specWalk`): with a budget of `D` h
   * a missing or deleted entry reached within `D` hops                       → not found;
   * otherwise (anything — file, deleted entry, nothing — lies past the budget, or the chain cycles)
                                                                              → cycle or depth error.
-There is no slack at the budget's edge. (Before fix <commit-2> a dangling target exactly one hop past
+There is no slack at the budget's edge. (Before fix 51e26c4a a dangling target exactly one hop past
 the budget was answered not-exist while a deleted or present one at the same distance was a depth
-error, and before fix <commit-1> `Open`/`ReadDir` of a deleted entry returned a handle / an empty
+error, and before fix d91e0833 `Open`/`ReadDir` of a deleted entry returned a handle / an empty
 listing; the witnesses are kept in corpus/C17/budget-edge.case as strict regression cases.)
 -/
 import Scalibr.Proofs.Symlink
